@@ -8,7 +8,7 @@ pub fn check(tier: &str) -> i32 {
     let thorough = rep.thorough();
     rep.assume("a ServiceRemoved up to 1 s before the reference lapse is accepted (the implementation treats the last second of a TTL as 'expires soon'); duplicate removals are not flagged");
     let scn = Scn { prop: Prop::C05, horizon_ms: 125_000, ops: OPS.to_vec(), host: HOST_PLAIN };
-    rep.run_bfs(&scn, if thorough { 5 } else { 4 }, Duration::from_secs(if thorough { 3000 } else { 50 }));
+    rep.run_bfs(&scn, if thorough { 5 } else { 4 }, Duration::from_secs(if thorough { 3000 } else { 110 }));
     let scn2 = Scn { prop: Prop::C05, horizon_ms: 125_000, ops: OPS.iter().copied().filter(|o| *o != Op::VerifyI).collect(), host: HOST_CAPITALS };
     rep.run_bfs(&scn2, if thorough { 4 } else { 3 }, Duration::from_secs(if thorough { 1200 } else { 30 }));
     rep.require("browse-histories-C05", "removed_events_checked");
